@@ -168,4 +168,41 @@ def encoding_to_selfies (encoding : ((List Int) ⊕ (List (List Int)))) (vocab_i
       let selfies : Str := (List.flatten char_list)
       Except.ok selfies
 
+/-- `selfies_to_encoding` of selfies/utils/encoding_utils.py (line 6), hand copy. -/
+def selfies_to_encoding (len_selfies : (Str → Nat)) (split_selfies : (Str → ((List Str) × (Option PyExc)))) (selfies : Str) (vocab_stoi : (List (Str × Int))) (pad_to_len : Int) (enc_type : Str) : Py ((List Int) ⊕ ((List (List Int)) ⊕ ((List Int) × (List (List Int))))) := do
+  if ((!(List.elem enc_type [(['l', 'a', 'b', 'e', 'l'] : Str), (['o', 'n', 'e', '_', 'h', 'o', 't'] : Str), (['b', 'o', 't', 'h'] : Str)]))) then
+    Except.error PyExc.ValueError
+  else
+    let selfies : Str := (if ((decide (pad_to_len > (((len_selfies selfies) : Nat) : Int)))) then
+        let selfies : Str := (selfies ++ (PyRt.strMul (['[', 'n', 'o', 'p', ']'] : Str) (pad_to_len - (((len_selfies selfies) : Nat) : Int))))
+        selfies
+      else
+        selfies)
+    let integer_encoded : (List Int) := []
+    let t_1 : ((List Str) × (Option PyExc)) := (split_selfies selfies)
+    let integer_encoded : (List Int) ← List.foldlM (m := Py) (fun (integer_encoded : (List Int)) (char : Str) => do
+        if (((decide (char = (['.'] : Str)))) && ((!(PyRt.dictHasSI vocab_stoi (['.'] : Str))))) then
+          Except.error PyExc.KeyError
+        else
+          let t_2 ← PyRt.dictItemSI vocab_stoi char
+          let integer_encoded : (List Int) := (integer_encoded ++ [t_2])
+          Except.ok integer_encoded
+        ) integer_encoded t_1.1
+    let _ ← PyRt.genEnd t_1.2
+    if ((decide (enc_type = (['l', 'a', 'b', 'e', 'l'] : Str)))) then
+      Except.ok (Sum.inl integer_encoded)
+    else
+      let one_hot_encoded : (List (List Int)) := []
+      let one_hot_encoded : (List (List Int)) ← List.foldlM (m := Py) (fun (one_hot_encoded : (List (List Int))) (index : Int) => do
+          let letter : (List Int) := (PyRt.listMul [(0 : Int)] (((List.length vocab_stoi) : Nat) : Int))
+          let t_3 ← PyRt.setItem letter index (1 : Int)
+          let letter : (List Int) := t_3
+          let one_hot_encoded : (List (List Int)) := (one_hot_encoded ++ [letter])
+          Except.ok one_hot_encoded
+          ) one_hot_encoded integer_encoded
+      if ((decide (enc_type = (['o', 'n', 'e', '_', 'h', 'o', 't'] : Str)))) then
+        Except.ok (Sum.inr (Sum.inl one_hot_encoded))
+      else
+        Except.ok (Sum.inr (Sum.inr (integer_encoded, one_hot_encoded)))
+
 end SV.Gen.Fallback
